@@ -45,6 +45,29 @@ def predicate(tr, rep):
         if st["max_fitness"][i] != f[j] or not L.same(st["max_g"][i], st["population_g"][i][j]) or not L.same(st["max_ph"][i], st["population_ph"][i][j]):
             rep.problem("history", f"max_fitness/max_g/max_ph of generation {i} are not the first arg-max of fitness[{i}]", dict(where, generation=i),
                         "history-max", True, LT.num(st["max_fitness"][i]), LT.num(f[j]), "C17_entries_consistent")
+    # adaptation series: entry g is the state in effect when generation g was created = what the optimizer held live at the
+    # end of generation g-1 (entry 0: the state right after construction); probability maps are distributions
+    def same_entry(a, b):
+        return (list(a.keys()) == list(b.keys()) and all(L.same(a[t], b[t]) for t in a)) if isinstance(a, dict) and isinstance(b, dict) else L.same(a, b)
+    for k in LT.SERIES_ATTR:
+        if k not in st:
+            continue
+        for g, e in enumerate(st[k]):
+            if isinstance(e, dict):
+                vals = [float(v) for v in e.values()]
+                if abs(sum(vals) - 1.0) > 1e-9 or any(v <= 0 for v in vals):
+                    rep.problem("history", f"recorded operator probabilities {k}[{g}] are not a distribution (sum {sum(vals)!r}): the entry is not a snapshot of "
+                                "the state of its generation", dict(where, series=k, entry=g, values=vals), "history-adapt-not-snapshot", True, vals, None,
+                                "C17_snapshot_immutable")
+                    return
+            # generation 0 has no callback: entry 1 (the state after generation 0's adaptation) is not observable from outside;
+            # the callback after generation j (j >= 1) sees the state that generation j+1 records
+            ref = tr["adapt_init"].get(k) if g == 0 else (tr["snaps"][g - 2]["adapt"].get(k) if 2 <= g <= len(tr["snaps"]) + 1 else None)
+            if ref is not None and isinstance(e, dict) and not same_entry(e, ref):
+                rep.problem("history", f"history entry {k}[{g}] is not the adaptation state that was in effect for generation {g} "
+                            "(the state the optimizer held at the end of the previous generation / after construction)",
+                            dict(where, series=k, entry=g), "history-adapt-not-snapshot", True, None, None, "C17_entries_consistent")
+                return
     if tr["init"] is not None:
         if not L.same(st["population_g"][0], tr["init_before"]):
             rep.problem("history", "population_g[0] differs from the supplied init_population", where, "history-init", True)
